@@ -558,6 +558,22 @@ func ruleR16_15(w *World, r *Report) {
 					if rec, calls := recoversAndCalls(x); rec && calls {
 						good = true
 					}
+				case *ssa.Parameter:
+					// the interceptor (or the option) handed to a function that creates the server: what its callers pass
+					pf := x.Parent()
+					idx := -1
+					for i, prm := range pf.Params {
+						if prm == x {
+							idx = i
+						}
+					}
+					for _, g := range u.ordaFuncs(func(p string) bool { return strings.HasPrefix(p, ordaPrefix+"/server/") }) {
+						for _, cs := range callsIn(g) {
+							if staticCallee(cs) == pf && idx >= 0 && idx < len(cs.Common().Args) {
+								visit(cs.Common().Args[idx], depth+1)
+							}
+						}
+					}
 				case *ssa.Slice:
 					visit(x.X, depth+1)
 				case *ssa.Alloc:
